@@ -31,6 +31,8 @@ Decides:
  A equals value          `--name=` carries the empty value: no item vanishes between argv and the ledger (shared with C02).
  R retry outcome         a failed adjacent command reports the failure of its FIRST run (never the outcome of the retry: an empty narrowed block
                           with fallback_to_usage would turn a stray item into usage on stdout) - shared with C08.
+ T ambiguity     the tokenizer's "cannot split this cluster" error leaves run_inner as the failure in every build configuration; only a
+                        completion request (known right after tokenizing) proceeds without it (shared with C10).
 Does not decide: that no combination of shapes double-delivers an item through scope arithmetic."""
 import re
 from core import *
@@ -64,6 +66,9 @@ def run(ctx):
         ctx.guard(tokenizer_context_free, ctx, cfg, fs)
         ctx.guard(c08.keep_only, ctx, lambda: c08.matched(ctx, cfg, fs), lambda o: 'failure-is-first-outcome' in o.key or 'inner-failure-is-final' in o.key, 'R.scope-restore')
         ctx.guard(consumers.accept_sets, ctx, cfg, fs, 'A.accept-sets')
+        import c10
+        # a word the tokenizer could not split is not claimed by anybody: its error leaves run_inner in every build configuration
+        ctx.guard(c08.keep_only, ctx, lambda: c10.ambiguity(ctx, cfg, fs), lambda o: True, 'T.tokenizer')
         ctx.guard(c08.keep_only, ctx, lambda: c02.equals_value(ctx, cfg, fs), lambda o: True, 'A.accept-sets')
         if fs.find(r'complete_run::.*ArgScanner.*check_next$', required=False):
             ctx.guard(c08.keep_only, ctx, lambda: c11.completion_marker(ctx, cfg, fs), lambda o: True, 'K.marker-only')
